@@ -325,7 +325,7 @@ class MatcherGen:
                     self._add(self.types, a['type'])
             elif a['k'] == 'int':
                 self._add(self.ints, a['v'])
-            elif a['k'] == 'str' and '"' not in a['s']:
+            elif a['k'] == 'str' and not any(c in a['s'] for c in '"()[]'):   # brackets inside matcher strings are not in the documented grammar
                 self._add(self.strs, a['s'])
             elif a['k'] == 'float':
                 self._add(self.raws, a['raw'])
@@ -394,7 +394,10 @@ class MatcherGen:
         if k < 0.48:
             return {'k': 'str', 's': r.choice(self.strs)}
         if k < 0.66:
-            return {'k': 'word', 't': self.word(self.labels + self.types[:6])}
+            w = self.word(self.labels + self.types[:6])
+            while w['p'] == ['*']:      # a value `*` is "any": written as such, and never as a vacuous item
+                w = self.word(self.labels + self.types[:6])
+            return {'k': 'word', 't': w}
         if k < 0.88:
             o = self.obj(0)
             while o['k'] in ('any', 'type'):
